@@ -63,6 +63,16 @@ CHECKS["C16"] = (
     "seeded modified targets, and TLC judges each recorded result against the declarative definitions.",
     "Assumes TLC and the projection are correct. Targets carry no ambiguity intervals (the statement does not say "
     "what a match inside an interval means).", "DESIGN.md §6 C16")
+CHECKS["C17"] = (
+    "TLA+ reference spec (Match.tla) + TLC model check of the two-pointer sweep machine (MC_Sweep refines Window for "
+    "every pair of sorted lists on a small grid) + TLC trace validation of recorded get_matched_indices/match_spectra/"
+    "get_fragment_matches/get_matched_intensity_percentage/get_match_coverage calls (Trace_Match)",
+    "TLC explores the sweep (shared lower pointer, restarted upper pointer) for all sorted lists up to 3x4 on a 5-point "
+    "grid and all tolerances and shows each emitted window equals the declarative one; recorded calls of the real code "
+    "on exact 1/8-Th grids (th and ppm) and on off-grid decimals are judged by TLC with inclusive bounds, admissible "
+    "answer sets for closest/largest, order-independence of fragment matching, the matched-intensity fraction and coverage.",
+    "Values live on grids where every float operation of the code is exact (stated in Match.tla); off-grid cases with a "
+    "peak within 2e-9 of a window edge are not judged. binomial_score is not covered.", "DESIGN.md §6 C17")
 NOT_YET = "check not built yet in this round (planned with the TLA+ technique, see DESIGN.md §6)"
 
 
